@@ -97,6 +97,11 @@ def numeration(ctx, R, total=False):
     w = ws[0]
     ipar = f.params[0]
     pre = f.node.body[: f.node.body.index(w)]
+    extra = [n for n in pre if not isinstance(n, ast.Assign) and not (isinstance(n, ast.Expr) and isinstance(n.value, ast.Constant))]
+    extra += [n for n in f.node.body[f.node.body.index(w) + 1:] if not isinstance(n, ast.Return)]
+    if extra and not total:
+        R.bad("C20.NUMERATION", f.qual + "|shape", where(f, extra[0]), "int2name does more than run its digit loop (`%s`): a shortcut or post-processing next to the loop cannot be shown to give the same names (they must enumerate A..Z, AA.. in order without collisions)" % ntext(extra[0])[:60])
+        return
     # entry: div = i + c, name = ""
     dvar = nvar = None
     entry_c = None
